@@ -145,11 +145,11 @@ def _lines(stmts, ind):
 _PURE_CALLS = {'getattr', 'hasattr', 'len', 'isinstance', 'bool', 'any', 'all', 'tuple', 'set', 'str'}
 
 
-def _pure_helper(f):
+def _pure_helper(f, method=True):
     """a method `def m(self, p…): return <expr>` whose expression has no effect (attribute reads, operators, comprehensions, a few
     builtins): returns (parameter names, expression) or None"""
     a = f.args
-    if f.decorator_list or a.vararg or a.kwarg or a.kwonlyargs or a.defaults or a.posonlyargs or not a.args or a.args[0].arg != 'self':
+    if f.decorator_list or a.vararg or a.kwarg or a.kwonlyargs or a.defaults or a.posonlyargs or (method and (not a.args or a.args[0].arg != 'self')):
         return None
     body = _strip(f.body)
     if len(body) != 1 or not isinstance(body[0], ast.Return) or body[0].value is None:
@@ -159,26 +159,29 @@ def _pure_helper(f):
             return None
         if isinstance(n, ast.Call) and not (isinstance(n.func, ast.Name) and n.func.id in _PURE_CALLS and not n.keywords):
             return None
-    return [x.arg for x in a.args[1:]], body[0].value
+    return [x.arg for x in a.args[1 if method else 0:]], body[0].value
 
 
 class _Inline(ast.NodeTransformer):
     """`self.m(simple arguments)` -> the expression of the pure helper `m` of the same class (an extracted pure helper is the same
     code); anything else stays a call"""
-    def __init__(self, owner, me):
-        self.helpers = {}
-        for f in owner.body:
-            if isinstance(f, ast.FunctionDef) and f.name != me and f.name.startswith('_') and not f.name.startswith('__'):
-                h = _pure_helper(f)
-                if h is not None:
-                    self.helpers[f.name] = h
+    def __init__(self, owner, module, me):
+        self.helpers, self.mod_helpers = {}, {}
+        for scope, table in ((owner, self.helpers), (module, self.mod_helpers)):
+            for f in (scope.body if scope is not None else []):
+                if isinstance(f, ast.FunctionDef) and f.name != me and f.name.startswith('_') and not f.name.startswith('__'):
+                    h = _pure_helper(f, method=scope is owner)
+                    if h is not None:
+                        table[f.name] = h
 
     def visit_Call(self, node):
         import copy
         self.generic_visit(node)
         f = node.func
-        if isinstance(f, ast.Attribute) and isinstance(f.value, ast.Name) and f.value.id == 'self' and f.attr in self.helpers and not node.keywords:
-            params, expr = self.helpers[f.attr]
+        hit = self.helpers.get(f.attr) if isinstance(f, ast.Attribute) and isinstance(f.value, ast.Name) and f.value.id == 'self' else \
+            self.mod_helpers.get(f.id) if isinstance(f, ast.Name) else None
+        if hit is not None and not node.keywords:
+            params, expr = hit
             if len(params) == len(node.args) and all(isinstance(x, (ast.Name, ast.Constant)) for x in node.args):
                 sub = dict(zip(params, node.args))
                 bound = {n.id for n in ast.walk(expr) if isinstance(n, ast.Name) and isinstance(n.ctx, ast.Store)}
@@ -188,6 +191,278 @@ class _Inline(ast.NodeTransformer):
                             return copy.deepcopy(sub[n.id]) if isinstance(n.ctx, ast.Load) and n.id in sub else n
                     return S().visit(copy.deepcopy(expr))
         return node
+
+
+_PURE_CALLS2 = _PURE_CALLS | {'next', 'range', 'list', 'dict', 'sorted', 'enumerate', 'zip', 'min', 'max', 'repr'}
+
+
+def _simple_params(f, method):
+    a = f.args
+    if f.decorator_list or a.vararg or a.kwarg or a.kwonlyargs or a.defaults or a.posonlyargs:
+        return None
+    ps = [x.arg for x in a.args]
+    if method:
+        if not ps or ps[0] != 'self':
+            return None
+        ps = ps[1:]
+    return ps
+
+
+def _stmt_helper(f, method):
+    """a helper `def _h(p…): <statements over its own locals>; return E` with no effect outside itself: no store to an attribute,
+    a subscript or a parameter, no call but a few builtins / `itertools.count` (mutating its own local iterator is its own business),
+    one `return`, at the end.  -> (params, statements, E, locals) or None"""
+    ps = _simple_params(f, method)
+    body = _strip(f.body)
+    if ps is None or len(body) < 2 or not isinstance(body[-1], ast.Return) or body[-1].value is None:
+        return None
+    stored = set()
+    for st in body[:-1] + [ast.Expr(body[-1].value)]:
+        for n in ast.walk(st):
+            if isinstance(n, (ast.Return, ast.Yield, ast.YieldFrom, ast.Await, ast.Global, ast.Nonlocal, ast.Lambda, ast.NamedExpr, ast.Delete, ast.Try,
+                              ast.With, ast.Raise, ast.FunctionDef, ast.ClassDef, ast.Import, ast.ImportFrom, ast.Starred, ast.Assert)):
+                return None
+            if isinstance(n, (ast.Attribute, ast.Subscript)) and isinstance(n.ctx, (ast.Store, ast.Del)):
+                return None
+            if isinstance(n, ast.Call) and not ((isinstance(n.func, ast.Name) and n.func.id in _PURE_CALLS2 and not n.keywords)
+                                                 or ast.unparse(n.func) == 'itertools.count'):
+                return None
+            if isinstance(n, ast.Name) and isinstance(n.ctx, ast.Store):
+                stored.add(n.id)
+    if stored & (set(ps) | {'self'}):
+        return None
+    return ps, body[:-1], body[-1].value, stored
+
+
+class _Sub(ast.NodeTransformer):
+    def __init__(self, m):
+        self.m = m
+
+    def visit_Name(self, n):
+        import copy
+        if n.id in self.m:
+            r = copy.deepcopy(self.m[n.id])
+            if isinstance(r, ast.Name):
+                r.ctx = n.ctx
+            return r
+        return n
+
+
+def _blocks(node):
+    """every statement list below a node"""
+    for n in ast.walk(node):
+        for f in ('body', 'orelse', 'finalbody'):
+            b = getattr(n, f, None)
+            if isinstance(b, list) and b and isinstance(b[0], ast.stmt):
+                yield n, f
+
+
+def _inline_statements(fn, helpers):
+    """`x = _h(names…)` / `return _h(names…)` -> the statements of the pure helper `_h` (same class: `self._h`, same module: `_h`)
+    with its locals renamed apart; when the helper returns one of its locals and `x` is not among the arguments, that local IS `x`"""
+    import copy
+    counter = [0]
+    changed = True
+    while changed:
+        changed = False
+        for node, field in list(_blocks(fn)):
+            block = getattr(node, field)
+            for i, st in enumerate(block):
+                call = st.value if isinstance(st, (ast.Assign, ast.Return)) else None
+                if not isinstance(call, ast.Call) or call.keywords:
+                    continue
+                f = call.func
+                key = ('self', f.attr) if isinstance(f, ast.Attribute) and isinstance(f.value, ast.Name) and f.value.id == 'self' else \
+                    ('mod', f.id) if isinstance(f, ast.Name) else None
+                if key not in helpers:
+                    continue
+                ps, stmts, ret, locs = helpers[key]
+                if len(ps) != len(call.args) or not all(isinstance(x, (ast.Name, ast.Constant)) for x in call.args):
+                    continue
+                target = None
+                if isinstance(st, ast.Assign):
+                    if len(st.targets) != 1 or not isinstance(st.targets[0], ast.Name):
+                        continue
+                    target = st.targets[0].id
+                counter[0] += 1
+                m = {p: a for p, a in zip(ps, call.args)}
+                argnames = {a.id for a in call.args if isinstance(a, ast.Name)}
+                for l in locs:
+                    m[l] = ast.Name(id='_h%d_%s' % (counter[0], l), ctx=ast.Load())
+                direct = target is not None and isinstance(ret, ast.Name) and ret.id in locs and target not in argnames
+                if direct:
+                    m[ret.id] = ast.Name(id=target, ctx=ast.Load())
+                new = [_Sub(m).visit(copy.deepcopy(x)) for x in stmts]
+                r = _Sub(m).visit(copy.deepcopy(ret))
+                if isinstance(st, ast.Return):
+                    new.append(ast.Return(value=r))
+                elif not direct:
+                    new.append(ast.Assign(targets=[ast.Name(id=target, ctx=ast.Store())], value=r))
+                block[i:i + 1] = new
+                changed = True
+                break
+            if changed:
+                break
+    ast.fix_missing_locations(fn)
+    return fn
+
+
+def _reads(node, name):
+    return sum(1 for n in ast.walk(node) if isinstance(n, ast.Name) and n.id == name and isinstance(n.ctx, ast.Load))
+
+
+def _stores(node, name):
+    return any(isinstance(n, ast.Name) and n.id == name and isinstance(n.ctx, (ast.Store, ast.Del)) for n in ast.walk(node))
+
+
+def _accumulate_loops(fn):
+    """`v = []; for T in I: [t = E0;] v.append(E); return tuple(v) | return v`  ->  `return tuple(E for T in I)` | `return [E for T in I]`
+    (the same evaluations in the same order; `t` a temporary read once, in `E`)"""
+    for node, field in list(_blocks(fn)):
+        block = getattr(node, field)
+        for i in range(len(block) - 2):
+            a, loop, r = block[i], block[i + 1], block[i + 2]
+            if not (isinstance(a, ast.Assign) and len(a.targets) == 1 and isinstance(a.targets[0], ast.Name) and isinstance(a.value, ast.List)
+                    and not a.value.elts and isinstance(loop, ast.For) and not loop.orelse and isinstance(r, ast.Return)):
+                continue
+            v = a.targets[0].id
+            body = list(loop.body)
+            if not body:
+                continue
+            last = body[-1]
+            if not (isinstance(last, ast.Expr) and isinstance(last.value, ast.Call) and ast.unparse(last.value.func) == v + '.append'
+                    and len(last.value.args) == 1 and not last.value.keywords):
+                continue
+            elt = last.value.args[0]
+            ok = True
+            for t in reversed(body[:-1]):
+                if isinstance(t, ast.Assign) and len(t.targets) == 1 and isinstance(t.targets[0], ast.Name) and _reads(elt, t.targets[0].id) == 1 \
+                        and _reads(fn, t.targets[0].id) == 1 and t is body[body.index(t)] and body.index(t) == len(body) - 2:
+                    elt = _Sub({t.targets[0].id: t.value}).visit(elt)
+                    body = body[:-2] + [body[-1]]
+                else:
+                    ok = False
+                    break
+            if not ok or _reads(elt, v) or _reads(loop.iter, v):
+                continue
+            whole = isinstance(r.value, ast.Name) and r.value.id == v
+            tup = isinstance(r.value, ast.Call) and isinstance(r.value.func, ast.Name) and r.value.func.id in ('tuple', 'list') \
+                and len(r.value.args) == 1 and isinstance(r.value.args[0], ast.Name) and r.value.args[0].id == v and not r.value.keywords
+            if not (whole or tup) or _reads(fn, v) != 2:          # (the append and the return)
+                continue
+            gens = [ast.comprehension(target=loop.target, iter=loop.iter, ifs=[], is_async=0)]
+            if whole:
+                value = ast.ListComp(elt=elt, generators=gens)
+            else:
+                value = ast.Call(func=r.value.func, args=[ast.GeneratorExp(elt=elt, generators=gens)], keywords=[])
+            block[i:i + 3] = [ast.Return(value=value)]
+            ast.fix_missing_locations(fn)
+            return _accumulate_loops(fn)
+    return fn
+
+
+def _loop_var_copies(fn):
+    """in the body of `for … x … in I`, a top-level `x = y` (y a local name) after which neither is assigned in that body: the rest of
+    the body reads `y` instead, and the copy goes when nothing outside the loop reads `x` (the next iteration binds `x` anew)"""
+    for loop in [n for n in ast.walk(fn) if isinstance(n, ast.For) and not n.orelse]:
+        tnames = {n.id for n in ast.walk(loop.target) if isinstance(n, ast.Name)}
+        for i, st in enumerate(loop.body):
+            if not (isinstance(st, ast.Assign) and len(st.targets) == 1 and isinstance(st.targets[0], ast.Name) and st.targets[0].id in tnames
+                    and isinstance(st.value, ast.Name)):
+                continue
+            x, y = st.targets[0].id, st.value.id
+            rest = loop.body[i + 1:]
+            if x == y or any(_stores(r, x) or _stores(r, y) for r in rest):
+                continue
+            if _reads(fn, x) != _reads(loop, x) or _reads(loop.iter, x):
+                continue
+            loop.body[i + 1:] = [_Sub({x: ast.Name(id=y, ctx=ast.Load())}).visit(r) for r in rest]
+            del loop.body[i]
+            ast.fix_missing_locations(fn)
+            return _loop_var_copies(fn)
+    return fn
+
+
+def _int_increments(fn):
+    """`x = x + <int constant>` -> `x += <int constant>` for a local name (the same for numbers; anything else raises either way)"""
+    for n in ast.walk(fn):
+        for f in ('body', 'orelse', 'finalbody'):
+            b = getattr(n, f, None)
+            if not (isinstance(b, list) and b and isinstance(b[0], ast.stmt)):
+                continue
+            for i, st in enumerate(b):
+                if isinstance(st, ast.Assign) and len(st.targets) == 1 and isinstance(st.targets[0], ast.Name) and isinstance(st.value, ast.BinOp) \
+                        and isinstance(st.value.op, (ast.Add, ast.Sub)) and isinstance(st.value.left, ast.Name) and st.value.left.id == st.targets[0].id \
+                        and isinstance(st.value.right, ast.Constant) and type(st.value.right.value) is int:
+                    b[i] = ast.copy_location(ast.AugAssign(target=st.targets[0], op=st.value.op, value=st.value.right), st)
+    return fn
+
+
+def sort_plain_resets(lines, properties=()):
+    """maximal runs of `  self.<plain attribute> = <constant | [] | {} | Name()>` lines (top level of the function) are sorted: assignments
+    of fresh values to distinct plain attributes commute; an attribute that is a property of the class is a barrier"""
+    import re
+    pat = re.compile(r"^  self\.(\w+) = (None|True|False|-?\d+|\[\]|\{\}|'[^']*'|\w+\(\)|\(set\(\), set\(\)\))$")
+    out, run = [], []
+    for l in lines:
+        m = pat.match(l)
+        if m and m.group(1) not in properties and m.group(1) not in [pat.match(x).group(1) for x in run]:
+            run.append(l)
+        else:
+            out += sorted(run) + [l]
+            run = []
+    return out + sorted(run)
+
+
+def property_names(tree, cls):
+    names = set()
+    for node in tree.body:
+        if isinstance(node, ast.ClassDef) and node.name == cls:
+            for x in node.body:
+                if isinstance(x, ast.Assign) and isinstance(x.value, ast.Call) and ast.unparse(x.value.func) == 'property':
+                    names |= {t.id for t in x.targets if isinstance(t, ast.Name)}
+                if isinstance(x, ast.FunctionDef) and any(ast.unparse(d) == 'property' for d in x.decorator_list):
+                    names.add(x.name)
+    return names
+
+
+def property_names_with_bases(tree, cls):
+    names, todo, seen = set(), [cls], set()
+    while todo:
+        c = todo.pop()
+        if c in seen:
+            continue
+        seen.add(c)
+        names |= property_names(tree, c)
+        for node in tree.body:
+            if isinstance(node, ast.ClassDef) and node.name == c:
+                todo += [b.id for b in node.bases if isinstance(b, ast.Name)]
+    return names
+
+
+def _pure_read(e):
+    return all(isinstance(n, (ast.Name, ast.Constant, ast.Subscript, ast.Attribute, ast.Load, ast.Tuple)) for n in ast.walk(e))
+
+
+def _hoist_try_bindings(fn):
+    """`try: x = <names, subscripts, attributes>; … finally: del <names>` (no handlers, no else): the leading bindings stand before the
+    `try` - binding a local from what is already there commutes with entering a `try` whose `finally` only deletes names (the one
+    difference, a name not deleted on a frame that is being left with the exception, is not observable)"""
+    for node, field in list(_blocks(fn)):
+        block = getattr(node, field)
+        for i, st in enumerate(block):
+            if not (isinstance(st, ast.Try) and not st.handlers and not st.orelse and st.finalbody
+                    and all(isinstance(d, ast.Delete) and all(isinstance(t, ast.Name) for t in d.targets) for d in st.finalbody)):
+                continue
+            deleted = {t.id for d in st.finalbody for t in d.targets}
+            moved = []
+            while len(st.body) > 1 and isinstance(st.body[0], ast.Assign) and len(st.body[0].targets) == 1 \
+                    and isinstance(st.body[0].targets[0], ast.Name) and st.body[0].targets[0].id not in deleted and _pure_read(st.body[0].value):
+                moved.append(st.body.pop(0))
+            if moved:
+                block[i:i] = moved
+                return _hoist_try_bindings(fn)
+    return fn
 
 
 def canon(fn):
@@ -200,9 +475,21 @@ def canon(fn):
         if owner is not None:
             fn._owner = owner
     fn = fn2
-    if owner is not None:
-        fn = _Inline(owner, fn.name).visit(fn)
+    module = getattr(fn, '_module', None) or (getattr(owner, '_module', None) if owner is not None else None)
+    fn.__dict__.pop('_module', None)
+    helpers = {}
+    for scope, kind in ((owner, 'self'), (module, 'mod')):
+        for f in (scope.body if scope is not None else []):
+            if isinstance(f, ast.FunctionDef) and f.name != fn.name and f.name.startswith('_') and not f.name.startswith('__'):
+                h = _stmt_helper(f, kind == 'self')
+                if h is not None:
+                    helpers[(kind, f.name)] = h
+    if helpers:
+        fn = _inline_statements(fn, helpers)
+    if owner is not None or module is not None:
+        fn = _Inline(owner, module, fn.name).visit(fn)
         ast.fix_missing_locations(fn)
+    fn = _int_increments(_hoist_try_bindings(_loop_var_copies(_accumulate_loops(fn))))
     r = _Rename(fn)
     fn = r.visit(fn)
     ast.fix_missing_locations(fn)
@@ -217,8 +504,10 @@ def canon(fn):
 def find(tree, cls, name):
     for node in tree.body:
         if cls is None and isinstance(node, ast.FunctionDef) and node.name == name:
+            node._module = tree
             return node
         if isinstance(node, ast.ClassDef) and node.name == cls:
+            node._module = tree
             for f in node.body:
                 if isinstance(f, ast.FunctionDef) and f.name == name:
                     f._owner = node
@@ -229,6 +518,7 @@ def find(tree, cls, name):
 def class_methods(tree, cls):
     for node in tree.body:
         if isinstance(node, ast.ClassDef) and node.name == cls:
+            node._module = tree
             for f in node.body:
                 if isinstance(f, ast.FunctionDef):
                     f._owner = node
@@ -438,7 +728,10 @@ def emit_c04(repo):
                        ('e2sInit', ('ExtendedToStreamDecorator', '__init__')), ('e2sStartTestRun', ('ExtendedToStreamDecorator', 'startTestRun')),
                        ('e2sGetFailfast', ('ExtendedToStreamDecorator', '_get_failfast')),
                        ('e2sSetFailfast', ('ExtendedToStreamDecorator', '_set_failfast'))]:
-        t.append(ldef(nm, canon(find(real, c, m))[0]))
+        lines = canon(find(real, c, m))[0]
+        if nm == 'e2sStartTestRun':
+            lines = sort_plain_resets(lines, property_names_with_bases(real, c))
+        t.append(ldef(nm, lines))
     t.append(ldef('multiProperties', class_assigns(real, 'MultiTestResult')))
     t.append(ltable('decoForward', deco_table(real)))
     t.append(ltable('tfrAdd', tfr_failfast_sites(real)))
@@ -514,6 +807,43 @@ def etod_rule(fn):
     return [probe, missing, check, proto, conv, last, fin]
 
 
+def check_args_rule(fn):
+    """`_check_args(err, details)`: "exactly one of the two is given, else ValueError" - the counting spelling or one test over
+    `a is None` / `a is not None` with the right truth table; the wording of the message is not behaviour"""
+    _, f = canon(fn)
+    body = _strip(f.body)
+    ok = ['exactly-one a0 a1', 'raise ValueError']
+
+    def is_raise(st):
+        return isinstance(st, ast.Raise) and st.cause is None and isinstance(st.exc, ast.Call) and ast.unparse(st.exc.func) == 'ValueError'
+    txt = [ast.unparse(x) for x in body]
+    if len(body) == 4 and txt[:3] == ['v0 = 0', 'if a0 is not None:\n    v0 += 1', 'if a1 is not None:\n    v0 += 1'] and isinstance(body[3], ast.If) \
+            and ast.unparse(body[3].test) == 'v0 != 1' and not body[3].orelse and len(body[3].body) == 1 and is_raise(body[3].body[0]):
+        return ok
+    if len(body) == 1 and isinstance(body[0], ast.If) and not body[0].orelse and len(body[0].body) == 1 and is_raise(body[0].body[0]):
+        import copy
+
+        def table(test, given0, given1):
+            class T(ast.NodeTransformer):
+                def visit_Compare(s, n):
+                    if len(n.ops) == 1 and isinstance(n.left, ast.Name) and n.left.id in ('a0', 'a1') and isinstance(n.ops[0], (ast.Is, ast.IsNot)) \
+                            and isinstance(n.comparators[0], ast.Constant) and n.comparators[0].value is None:
+                        given = given0 if n.left.id == 'a0' else given1
+                        return ast.Constant(value=(not given) if isinstance(n.ops[0], ast.Is) else given)
+                    s.generic_visit(n)
+                    return n
+            e = T().visit(copy.deepcopy(test))
+            for n in ast.walk(e):
+                if not isinstance(n, (ast.Constant, ast.BoolOp, ast.UnaryOp, ast.Compare, ast.And, ast.Or, ast.Not, ast.Eq, ast.NotEq, ast.Is, ast.IsNot, ast.Load)) \
+                        or (isinstance(n, ast.Constant) and not isinstance(n.value, bool)):
+                    return None
+            return bool(eval(compile(ast.fix_missing_locations(ast.Expression(body=e)), '<check_args>', 'eval'), {'__builtins__': {}}))
+        rows = [table(body[0].test, g0, g1) for g0 in (False, True) for g1 in (False, True)]
+        if rows == [True, False, False, True]:          # raises unless exactly one is given
+            return ok
+    return ['?' + ' ; '.join(t.replace('\n', ' ; ') for t in txt)]
+
+
 def emit_c08(repo):
     real = ast.parse(open(os.path.join(repo, 'testtools', 'testresult', 'real.py')).read())
     t = ['/-! GENERATED by harness/pyres2lean.py from testtools/testresult/real.py on every run: the fallback rules of\n'
@@ -523,7 +853,9 @@ def emit_c08(repo):
     t.append('/-- per outcome method: probe, substitution when the target lacks the method, argument check, protocol, conversion on\n'
              '`TypeError`, final call, `finally` clause -/')
     t.append(ltable('etodAdd', [(m, etod_rule(find(real, 'ExtendedToOriginalDecorator', m))) for m in ADDS]))
-    for nm, m in [('etodCheckArgs', '_check_args'), ('etodDetailsToExcInfo', '_details_to_exc_info'), ('etodDone', 'done'), ('etodProgress', 'progress'),
+    t.append('/-- `_check_args`: exactly one of `err` / `details`, else `ValueError` (either spelling, message text ignored) -/')
+    t.append(ldef('etodCheckArgs', check_args_rule(find(real, 'ExtendedToOriginalDecorator', '_check_args'))))
+    for nm, m in [('etodDetailsToExcInfo', '_details_to_exc_info'), ('etodDone', 'done'), ('etodProgress', 'progress'),
                   ('etodTags', 'tags'), ('etodTime', 'time'), ('etodStartTest', 'startTest'), ('etodStopTest', 'stopTest'), ('etodStopTestRun', 'stopTestRun')]:
         t.append(ldef(nm, canon(find(real, 'ExtendedToOriginalDecorator', m))[0]))
     for nm, m in [('tbtStartTest', 'startTest'), ('tbtStopTest', 'stopTest'), ('tbtErrToDetails', '_err_to_details'), ('tbtAddSkip', 'addSkip'),
@@ -545,7 +877,7 @@ def name_loop(fn):
         "v0 = self.getDetails() ; v1 = a0 ; v2 = 1 ; while v1 in v0: ; v1 = '%s-%d' % (a0, v2) ; v2 += 1 ; self.addDetail(v1, a1)":
             ['start 1', 'base original', 'counter per-call', 'first plain', 'format %s-%d', 'store addDetail'],
         # gather_details
-        "for (v0, v1) in a0.items(): ; v2 = v0 ; v3 = itertools.count(1) ; while v2 in a1: ; v2 = '%s-%d' % (v0, next(v3)) ; v0 = v2 ; a1[v0] = _copy_content(v1)":
+        "for (v0, v1) in a0.items(): ; v2 = v0 ; v3 = itertools.count(1) ; while v2 in a1: ; v2 = '%s-%d' % (v0, next(v3)) ; a1[v2] = _copy_content(v1)":
             ['start 1', 'base original', 'counter per-detail', 'first plain', 'format %s-%d', 'store copy-content'],
         # _report_traceback
         "v0 = self._traceback_id_gens.setdefault(a1, itertools.count(0)) ; while True: ; v1 = next(v0) ; if v1: ; a1 = '%s-%d' % (a1, v1) ; "
@@ -572,7 +904,10 @@ def emit_c05(repo):
     for nm, m in [('caseInit', '__init__'), ('caseReset', '_reset'), ('expectFailure', 'expectFailure'), ('useFixture', 'useFixture'),
                   ('reportError', '_report_error'), ('reportExpectedFailure', '_report_expected_failure'), ('reportFailure', '_report_failure'),
                   ('reportSkip', '_report_skip'), ('reportUnexpectedSuccess', '_report_unexpected_success')]:
-        t.append(ldef(nm, canon(find(tc, 'TestCase', m))[0]))
+        lines = canon(find(tc, 'TestCase', m))[0]
+        if nm == 'caseReset':
+            lines = sort_plain_resets(lines, property_names_with_bases(tc, 'TestCase'))
+        t.append(ldef(nm, lines))
     t.append(ldef('runCleanups', canon(find(rt, 'RunTest', '_run_cleanups'))[0]))
     t.append('end TTV.Generated.DetailSrc\n')
     return '\n'.join(t)
